@@ -174,6 +174,14 @@ class NonlinearScalarAtom(ScalarAtom):
         # noinspection PyUnresolvedReferences
         return self._epigraph_variable
 
+    def __getstate__(self):
+        # A ScalarVariable loses the link to its parent when pickled, and only the parent can
+        # restore it. The parent of our epigraph variable is referenced from nowhere else.
+        d = self.__dict__.copy()
+        epi = d.get('_epigraph_variable', None)
+        d['_epigraph_parent'] = None if epi is None else epi.parent
+        return d
+
     def __hash__(self):
         return hash(self.args + (self.__atom_text__(),))
 
